@@ -333,7 +333,7 @@ pub fn run(ctx: &Ctx) {
     );
     if ctx.tier == vcore::Tier::Thorough {
         ctx.run_fuzz(
-            vcore::fuzz::Campaign { target: "c20_bytestring", part: "bytes", runs_per_proc: 300_000, procs: 6, max_len: 64, rule: RULE },
+            vcore::fuzz::Campaign { target: "c20_bytestring", part: "bytes", runs_per_proc: 10_000, procs: 8, max_len: 48, rule: RULE },
             &[b"\x80\x00\xff\x02a\xc3a\xc3\xa9\xe2\x82\xac".to_vec(), "\u{40}\0\u{7f}\0héllo😀".as_bytes().to_vec()],
             &|bytes| {
                 let c = case_from_bytes(bytes);
